@@ -194,6 +194,19 @@ def run_check(prop, tier, seed, replay, no_build=False):
         # logs expected failures loudly and nothing of it is printed.
         logging.getLogger().addHandler(logging.NullHandler())
         logging.getLogger("pyatv").setLevel(logging.DEBUG)
+        if os.environ.get("VERIF_LOG", "debug") != "debug-soft":
+            # harnesses that silence pyatv's loggers for their own runs (written when output
+            # still went to stderr) must not switch the guarded statements off again: only
+            # the null handler sees the records, so muting has no purpose any more
+            logging.disable = lambda level=logging.CRITICAL: None
+            _set_level = logging.Logger.setLevel
+
+            def set_level(self, level):
+                if self.name.split(".")[0] == "pyatv" and not isinstance(level, str) and level > logging.DEBUG:
+                    return
+                _set_level(self, level)
+
+            logging.Logger.setLevel = set_level
     mod = harness_for(prop)
     props_files = list(getattr(mod, "PROPS_FILES", [f"PyatvModel/Props/{prop}.lean"]))
     props_modules = [p[:-5].replace("/", ".") for p in props_files]
